@@ -189,7 +189,13 @@ def differential(ctx, progs, osets, found_by):
             ctx.bump('skipped', a['ending'])
             continue
         seen = {}
+        reads_annotations = '__annotations__' in src or 'get_type_hints' in src
         for oname, subset in osets:
+            if reads_annotations and (set(subset) & set(ANN)):
+                # removed annotations are a documented reflective view: a program that prints them is outside the property for
+                # option sets that remove them (it still runs under the others)
+                ctx.bump('skipped', 'reads-annotations-that-the-option-set-removes')
+                continue
             m, err = minify(src, subset)
             ctx.count()
             if m is None:
@@ -204,7 +210,13 @@ def differential(ctx, progs, osets, found_by):
                 ctx.mark_nontrivial(ident + '|' + oname)
             d = diff_obs(a, b)
             if d:
-                def still(s, subset=subset):
+                base_shapes = set(shapes_of(src, subset))
+
+                def still(s, subset=subset, base_shapes=base_shapes):
+                    # shrinking must not slide into another failure: a candidate that acquires the shape of a known finding
+                    # (say, an annotation whose name the shrinker just deleted) is a different program for our purposes
+                    if set(shapes_of(s, subset)) - base_shapes:
+                        return False
                     try:
                         dd, mm, e = check_one(s, subset)
                     except Exception:
